@@ -437,7 +437,8 @@ def run_e2e(case, work):
     from aiu_trace_analyzer.core.acelyzer import Acelyzer
     sc = case["scale"]
     evs = [{"ph": "X", "name": f"host_{uid}", "pid": 0, "tid": tid, "ts": ts * sc, "dur": dur * sc,
-            "args": {"uid": uid}} for isx, pid, tid, ts, dur, uid in case["events"]]
+            "args": dict({"uid": uid}, **({"External id": 100 + uid} if case.get("annot") else {}))}
+           for isx, pid, tid, ts, dur, uid in case["events"]]
     outp = os.path.join(work, "e2e_out.json")
     if os.path.exists(outp):
         os.remove(outp)
@@ -508,13 +509,16 @@ def gen_e2e_case(r):
         s = r.randint(0, T)
         d = T + r.randint(0, 2) if deep else r.randint(1, max(1, T - s))   # zero-length host slices are removed
         evs.append([True, 0, r.choice([1, 2, 3]), s, d, i])                  # by an earlier stage of the pipeline
-    return mk_case(mode, 5, True, r.choice([1.0, 0.5, 0.25]), evs)
+    case = mk_case(mode, 5, True, r.choice([1.0, 0.5, 0.25]), evs)
+    # host slices of a FLEX file that carry torch-profiler annotations: a later stage renames their lanes
+    case["annot"] = r.random() < 0.25
+    return case
 
 
 def coq_e2e_case(case):
     # the model sees what reaches the overlap stages: every host slice on lane (pid, 1000)
     evs = [[True, E2E_PID_TID[0], E2E_PID_TID[1], ts, dur, uid] for _, _, _, ts, dur, uid in case["events"]]
-    return enc.P(case["mode"], enc.L([coq_ev(e) for e in evs]))
+    return enc.P(enc.P(case["mode"], enc.B(bool(case.get("annot")))), enc.L([coq_ev(e) for e in evs]))
 
 
 # ---------------------------------------------------------------- check
@@ -591,7 +595,7 @@ def run(ctx):
     finally:
         shutil.rmtree(work, ignore_errors=True)
     bad2, _, secs2 = coqrun.run_cases(
-        "C04_e2e", "From AiuModel Require Import Overlap.", "(mode * list ev)", "e2e_val", e2e_terms,
+        "C04_e2e", "From AiuModel Require Import Overlap.", "((mode * bool) * list ev)", "e2e_val", e2e_terms,
         prelude=E2E_PRELUDE, shard=500)
     mism += [{"name": "correspondence Overlap.run (host slices on lane (pid,1000)) vs Acelyzer end to end",
               "case": dict(e2e_cases[j], e2e=True), "impl": e2e_terms[j][1][:600]} for j in bad2[:3]]
@@ -632,10 +636,13 @@ def run(ctx):
 
 E2E_PRELUDE = """
 Definition uid_leb (a b : ev) : bool := (uid a <=? uid b)%Z.
-Definition e2e_val (c : mode * list ev) : val :=
-  match run (fst c) 5%nat true (snd c) with
+(* tb_refinement_lightweight, a later stage: host slices that carry torch-profiler annotations ("External id") are pulled
+   to the top by renaming their lane t to t/10 + t mod 10 (1000..1005 -> 100..105) *)
+Definition light_tid (annot : bool) (t : Z) : Z := if annot then (t / 10 + t mod 10)%Z else t.
+Definition e2e_val (c : (mode * bool) * list ev) : val :=
+  match run (fst (fst c)) 5%nat true (snd c) with
   | Err t => VE t
-  | Ok _ out => VL (map (fun a => VL [VZ (uid a); VZ (tid a)]) (isort uid_leb out))
+  | Ok _ out => VL (map (fun a => VL [VZ (uid a); VZ (light_tid (snd (fst c)) (tid a))]) (isort uid_leb out))
   end.
 """
 
